@@ -20,6 +20,21 @@ def c01_item(res, item):
     g = G(item)
     res.case(g)
     corr_games(res, [g], "property", "C01 closed form")
+    c01_exact(res, [g])
+
+
+def c01_exact(res, games):
+    """the most independent oracle: the closed form with EXACT V, W, V~, W~ evaluated by the same Lean model
+    terms on 192-bit big floats (op HRATE e); deviation allowed = the documented asymptotic forms' stated errors"""
+    lines = [rate_line(dict(g, leaves="e")).replace("RATE", "HRATE", 1) for g in games]
+    outs = Driver().run(lines)
+    for g, o in zip(games, outs):
+        impl = run_impl_rate(g)
+        mm = core.compare_rate_exact(g, impl, parse_rate_out(o))
+        res.traces += 1
+        res.count("exact_leaf_highprec_comparisons")
+        if mm:
+            res.fail("property", "C01 exact closed form (high precision): " + mm, dict(type="game", game=g))
 
 
 def c01(res):
@@ -45,6 +60,7 @@ def c01(res):
         res.case(g)
         describe(res, g)
     corr_games(res, games, "property", "C01 closed form")
+    c01_exact(res, games[:: max(1, len(games) // size(res, 500, 900))])
     res.rule = ("random games over all strata (typical, wide, corners, mismatch 4-9 c apart, identical, equal sizes) "
                 "x 5 models x configurations (beta 1e-3..1e3 rescaled, kappa, tau, limit_sigma, 6 gamma callbacks) "
                 "x outcomes as ranks/scores in 8 numeric encodings, plus every weak order of n<=%d teams; each game's "
